@@ -534,7 +534,9 @@ fn op_vault_kad(rt: &tokio::runtime::Runtime, case: &Value) -> Value {
     let mut observed: Vec<Value> = vec![];
     let mut delivered: Vec<Vec<usize>> = vec![];
     let mut asked: Vec<String> = vec![];
-    let (r1, r2) = rt.block_on(async {
+    let mut observed2: Option<Value> = None;
+    let mut delivered2: Vec<usize> = vec![];
+    let ((r1, r1b), r2) = rt.block_on(async {
         let (_net, _evrx, mut driver) = NetworkBuilder::new(Keypair::ed25519_from_bytes([0xEE; 32]).unwrap(), true)
             .build_client()
             .expect("client-mode driver");
@@ -543,34 +545,73 @@ fn op_vault_kad(rt: &tokio::runtime::Runtime, case: &Value) -> Value {
         let (local_tx, _local_rx) = mpsc::channel::<LocalSwarmCmd>(64);
         let api_net = Network::new(cmd_tx, local_tx, me, Keypair::ed25519_from_bytes([0xEE; 32]).unwrap());
         let client = Client::verif_new(api_net, Default::default());
+        let client2 = client.clone();
+        // a second reader of the same vault: starts when the script says "read2" (while the first read's
+        // query is in flight), or never
+        let (go_tx, go_rx) = tokio::sync::oneshot::channel::<()>();
+        let mut go_tx = Some(go_tx);
         tokio::select! {
             r = async {
-                let a = client.fetch_and_decrypt_vault(&owner).await;
+                let pair = tokio::join!(
+                    client.fetch_and_decrypt_vault(&owner),
+                    async { match go_rx.await { Ok(()) => Some(client2.fetch_and_decrypt_vault(&owner).await), Err(_) => None } }
+                );
                 let b = client.get_or_create_scratchpad(&owner, 77).await;
-                (a, b)
+                (pair, b)
             } => r,
             _ = async {
+                let mut pass = 0;
                 loop {
                     let cmd = match cmd_rx.recv().await {
                         Some(c) => c,
                         None => { std::future::pending::<()>().await; unreachable!() }
                     };
                     let NetworkSwarmCmd::GetNetworkRecord { key, sender, cfg } = cmd else { continue };
+                    pass += 1;
                     asked.push(hex::encode(key.as_ref()));
                     let (tx, rx) = tokio::sync::oneshot::channel();
                     let before: HashSet<QueryId> = driver.verif_pending_get_record().iter().map(|x| x.0).collect();
                     let _ = driver.verif_handle_network_cmd(NetworkSwarmCmd::GetNetworkRecord { key: key.clone(), sender: tx, cfg });
                     let qid = driver.verif_pending_get_record().iter().map(|x| x.0).find(|q| !before.contains(q));
                     let mut fed = vec![];
+                    // the second reader's command, once handed to the driver: (its original sender, our receiver)
+                    let mut second: Option<(tokio::sync::oneshot::Sender<Reply>, tokio::sync::oneshot::Receiver<Reply>)> = None;
+                    let mut reply2: Option<Reply> = None;
                     if let Some(id) = qid {
                         let pending = |d: &ant_networking::SwarmDriver| d.verif_pending_get_record().iter().any(|x| x.0 == id);
                         for (ei, ev) in events.iter().enumerate() {
                             if !pending(&driver) {
                                 break;      // the query has produced its outcome: later answers are not received
                             }
-                            fed.push(ei);
                             let one = NonZeroUsize::new(ei + 1).unwrap();
-                            let (result, last) = match ev["e"].as_str().unwrap() {
+                            let kind = ev["e"].as_str().unwrap();
+                            if kind == "read2" {
+                                if pass == 1 && go_tx.is_some() {
+                                    fed.push(ei);
+                                    let _ = go_tx.take().unwrap().send(());
+                                    let mut cmd2 = None;
+                                    for _ in 0..50 {
+                                        tokio::task::yield_now().await;
+                                        if let Ok(c) = cmd_rx.try_recv() {
+                                            cmd2 = Some(c);
+                                            break;
+                                        }
+                                    }
+                                    if let Some(NetworkSwarmCmd::GetNetworkRecord { key: k2, sender: s2, cfg: cfg2 }) = cmd2 {
+                                        asked.push(hex::encode(k2.as_ref()));
+                                        let (tx2, mut rx2) = tokio::sync::oneshot::channel();
+                                        let _ = driver.verif_handle_network_cmd(NetworkSwarmCmd::GetNetworkRecord { key: k2, sender: tx2, cfg: cfg2 });
+                                        if let Ok(r) = rx2.try_recv() {
+                                            reply2 = Some(r);
+                                            delivered2 = fed.clone();
+                                        }
+                                        second = Some((s2, rx2));
+                                    }
+                                }
+                                continue;
+                            }
+                            fed.push(ei);
+                            let (result, last) = match kind {
                                 "found" => {
                                     let j = ev["rec"].as_u64().unwrap() as usize;
                                     (QueryResult::GetRecord(Ok(GetRecordOk::FoundRecord(PeerRecord {
@@ -589,6 +630,14 @@ fn op_vault_kad(rt: &tokio::runtime::Runtime, case: &Value) -> Value {
                             let _ = driver.verif_handle_kad_event(kad::Event::OutboundQueryProgressed {
                                 id, result, stats: QueryStats::empty(), step: ProgressStep { count: one, last },
                             });
+                            if reply2.is_none() {
+                                if let Some((_, rx2)) = second.as_mut() {
+                                    if let Ok(r) = rx2.try_recv() {
+                                        reply2 = Some(r);
+                                        delivered2 = fed.clone();
+                                    }
+                                }
+                            }
                         }
                         if pending(&driver) {
                             // a script without a terminating event: the query times out
@@ -599,6 +648,20 @@ fn op_vault_kad(rt: &tokio::runtime::Runtime, case: &Value) -> Value {
                                 step: ProgressStep { count: NonZeroUsize::new(events.len() + 1).unwrap(), last: true },
                             });
                         }
+                    }
+                    if pass == 1 {
+                        drop(go_tx.take());     // a second reader that was not started never starts
+                    }
+                    if let Some((s2, rx2)) = second {
+                        let r2: Reply = match reply2.take() {
+                            Some(r) => r,
+                            None => {
+                                delivered2 = fed.clone();
+                                match rx2.await { Ok(r) => r, Err(_) => Err(GetRecordError::QueryTimeout) }
+                            }
+                        };
+                        observed2 = Some(abstract_reply(&values, &r2));
+                        let _ = s2.send(r2);
                     }
                     delivered.push(fed);
                     let reply: Reply = match rx.await {
@@ -611,10 +674,16 @@ fn op_vault_kad(rt: &tokio::runtime::Runtime, case: &Value) -> Value {
             } => unreachable!(),
         }
     });
-    let key_ok = asked.len() == 2 && asked.iter().all(|k| *k == want_key);
-    let fetch = match r1 {
+    let n_reads = if r1b.is_some() { 3 } else { 2 };
+    let key_ok = asked.len() == n_reads && asked.iter().all(|k| *k == want_key);
+    let fetch_json = |r: Result<(Bytes, u64), VaultError>| match r {
         Ok((data, enc)) => json!({"res": "ok", "data": hex::encode(&data), "encoding": enc}),
         Err(e) => json!({"res": "err", "code": vault_err_code(&e)}),
+    };
+    let fetch = fetch_json(r1);
+    let reader2 = match r1b {
+        Some(r) => json!({"fetch": fetch_json(r), "observed": observed2, "delivered": delivered2}),
+        None => Value::Null,
     };
     let pad = match r2 {
         Ok((p, is_new)) => json!({"res": "ok", "is_new": is_new, "counter": p.count(), "valid": p.is_valid(),
@@ -628,7 +697,7 @@ fn op_vault_kad(rt: &tokio::runtime::Runtime, case: &Value) -> Value {
         KeySpec::Bytes(b) => hex::encode(b),
     }).collect();
     json!({"fetch": fetch, "pad": pad, "key_ok": key_ok, "asked_key": want_key, "keys": keys,
-           "observed": observed, "delivered": delivered})
+           "observed": observed, "delivered": delivered, "reader2": reader2})
 }
 
 fn fill(case: &Value) -> Vec<u8> {
@@ -648,6 +717,36 @@ fn fill(case: &Value) -> Vec<u8> {
                 v.extend(r.next().to_le_bytes());
             }
             v.truncate(n);
+            v
+        }
+        // a pseudo-random third repeated three times: three identical source chunks
+        "rep3" => {
+            let third = n / 3;
+            let mut r = XorShift(seed | 1);
+            let mut t = Vec::with_capacity(third + 8);
+            while t.len() < third {
+                t.extend(r.next().to_le_bytes());
+            }
+            t.truncate(third);
+            let mut v = Vec::with_capacity(n);
+            for _ in 0..3 {
+                v.extend(&t);
+            }
+            v
+        }
+        // "pattern": one block of `block` bytes per letter, equal letters = equal blocks (aab, aba, aaaab ...)
+        "blocks" => {
+            let block = case["block"].as_u64().unwrap() as usize;
+            let mut v = vec![];
+            for ch in case["pattern"].as_str().unwrap().bytes() {
+                let mut r = XorShift((seed ^ (ch as u64).wrapping_mul(0x9E3779B97F4A7C15)) | 1);
+                let mut b = Vec::with_capacity(block + 8);
+                while b.len() < block {
+                    b.extend(r.next().to_le_bytes());
+                }
+                b.truncate(block);
+                v.extend(b);
+            }
             v
         }
         other => panic!("fill {other}"),
